@@ -14,7 +14,7 @@ META = {
              'written again ...) whose last write is compared byte-for-byte with a fresh interpreter that builds the final '
              'specification alone and writes once; signature = the sequence of step kinds; non-trivial when the history '
              'contains at least one earlier write or an earlier foreign file'),
-    'required_obs': {'quick': ['compared', 'both-ok', 'shared-data-struct'] + ['step-' + k for k in STEP_KINDS]},
+    'required_obs': {'quick': ['compared', 'both-ok', 'shared-data-struct', 'two-logical-files-late-types'] + ['step-' + k for k in STEP_KINDS]},
     'assumptions': ['origins carry explicit file_set_number and creation_time (the statement exempts random / now() defaults)',
                     'a real fresh interpreter (subprocess) executes the final specification',
                     'supplying the final data inline or through write(data=dict) is equivalent (C11)'],
@@ -29,6 +29,9 @@ def cases(tier, seed):
     # one caller-owned data object (structured array / dict / HDF5 file) re-used for every write of a history
     for j in range(40 if tier == 'quick' else 1000):
         yield {'stratum': 'shared-data-object', 'index': j, 'kind': 'shared-data'}
+    # two logical files; one of them gets objects of further types only after a first write
+    for j in range(24 if tier == 'quick' else 500):
+        yield {'stratum': 'two-logical-files-late-types', 'index': j, 'kind': 'two-lf'}
     for k in STEP_KINDS:
         for j in range(3 if tier == 'quick' else 20):
             yield {'stratum': 'single-step', 'index': i, 'kind': 'single', 'step': k}
@@ -237,7 +240,29 @@ def run_case(case):
 
     r = gen.rng(seed, PROP, case['stratum'], case['index'])
     avoid = metagen.default_avoid()
-    if case['kind'] == 'shared-data':
+    if case['kind'] == 'two-lf':
+        base = metagen.meta_spec(r, avoid=avoid, n_objects=0, lf_count=2, n_origins=1, origin_pos='first', later_p=0.0, mx=8192)
+        base['write'] = {'output_chunk_size': 2 ** 16}
+        pool = ['zone', 'axis', 'comment', 'equipment', 'message', 'long_name', 'tool', 'parameter', 'well_reference_point']
+        have = {0: r.sample(pool, r.choice([0, 1, 2])), 1: r.sample(pool, r.choice([3, 5, 7]))}
+        if r.random() < 0.5:
+            have = {0: have[1], 1: have[0]}
+        for lf_, ts in have.items():
+            for t in ts:
+                base['ops'].append({'op': t, 'lf': lf_, 'name': f'L{lf_}-{t.upper()}-EARLY', 'attrs': {}, 'set_name': f'L{lf_}-S'})
+        late = []
+        for lf_ in (0, 1):
+            missing = [t for t in pool if t not in have[lf_]]
+            for t in r.sample(missing, min(len(missing), r.choice([0, 2, 4]))):
+                late.append({'op': t, 'lf': lf_, 'name': f'L{lf_}-{t.upper()}-LATE', 'attrs': {}, 'set_name': f'L{lf_}-S'})
+        r.shuffle(late)
+        kinds = ['two-lf-late-types']
+        hist = {'base': base, 'foreign_before': [], 'phases': [{'ops': [], 'write': {'output_chunk_size': 2 ** 16}},
+                                                               {'ops': late, 'write': {'output_chunk_size': 2 ** 16}}]}
+        if r.random() < 0.4:
+            hist['phases'].insert(1, {'ops': [], 'write': {'output_chunk_size': 2 ** 16}})
+        bump('two-logical-files-late-types')
+    elif case['kind'] == 'shared-data':
         base = gen.fastpath_spec(r) if r.random() < 0.6 else gen.frame_spec(r, sources=('struct', 'dict', 'hdf5'), casts=False)
         base['write']['output_chunk_size'] = 2 ** 16
         for k_ in ('from_idx', 'to_idx', 'input_chunk_size'):
@@ -249,10 +274,10 @@ def run_case(case):
         base = base_spec(r, avoid)
         kinds = [case['step']] if case['kind'] == 'single' else [r.choice(STEP_KINDS) for _ in range(r.randint(1, 5))]
         hist = {'base': base, 'phases': [{'ops': [], 'write': {'output_chunk_size': 2 ** 16}}], 'foreign_before': []}
-    if r.random() < 0.4 or kinds[0].startswith('foreign'):
+    if case['kind'] != 'two-lf' and (r.random() < 0.4 or kinds[0].startswith('foreign')):
         hist['foreign_before'].append(foreign_spec(r, base, r.choice(['names', 'values'])))
     ops = list(base['ops'])
-    for k in kinds:
+    for k in (kinds if case['kind'] != 'two-lf' else []):
         ph = make_phase(r, k, ops, base, avoid)
         if ph.pop('hc_around', False):
             # enter and leave high-compatibility mode (with an exception inside) between the two writes
